@@ -202,7 +202,7 @@ def gen_c15(rng, tier) -> dict:
             kw["outer"] = _outer(fr)
         flows.append(_flow(fr, host, port, sni, verify, fr.choice([[], ["http/1.1"], ["http/1.1"]]),
                            start=0.0 if i == 0 else fr.choice([0, 0.001, 0.05]), **kw))
-    sc = {"family": "c15", "mode": mode, "eager_tasks": r.random() < 0.3, "confdir": "default", "opts": opts,
+    sc = {"family": "c15", "mode": mode, "eager_tasks": r.random() < 0.15, "confdir": "default", "opts": opts,
           "origins": origins, "flows": flows, "tags": tags}
     if mode.startswith("reverse"):
         sc["rhost"], sc["rport"] = flows[0]["host"], flows[0]["port"]
@@ -360,7 +360,7 @@ def gen_c16(rng, tier) -> dict:
         flows.append(_flow(fr, host, port, sni, verify,
                            fr.choice([[], ["http/1.1"], ["h2", "http/1.1"], ["http/1.1", "h2"]]),
                            backend=backend, start=0.0 if i == 0 else fr.choice([0, 0, 0.001, 0.02]), form=form, **kw))
-    sc = {"family": "c16", "mode": mode, "eager_tasks": r.random() < 0.3,
+    sc = {"family": "c16", "mode": mode, "eager_tasks": r.random() < 0.15,
           "confdir": "custom" if r.random() < 0.3 else "default", "opts": opts,
           "origins": origins, "flows": flows, "tags": tags}
     if mode.startswith("reverse"):
@@ -420,7 +420,7 @@ def gen_c18(rng, tier) -> dict:
         kw["outer"] = _outer(r, offers=gen_offers(r))
     only_h1_upstream = o_alpn is None or all(a in ("http/1.1", "http/1.0") for a in o_alpn)
     fl = _flow(r, host, 443, sni, sni, offers, req=only_h1_upstream and force is None, **kw)
-    sc = {"family": "c18", "mode": mode, "eager_tasks": r.random() < 0.3, "confdir": "default", "opts": opts,
+    sc = {"family": "c18", "mode": mode, "eager_tasks": r.random() < 0.15, "confdir": "default", "opts": opts,
           "origins": [org], "flows": [fl],
           "tags": [{"state": state, "up_class": alpn_class(up) if up else "none", "http2": http2}]}
     if mode.startswith("reverse"):
